@@ -9,7 +9,7 @@ import verdict
 PROP = "C20"
 LEVEL = "exploration"
 RULE = ("the full product {std::vector, list, deque, map, std::array, built-in array, initializer list, "
-        "fixed_vector} x {lvalue, const, rvalue} x lengths 0..5 (thorough: 0..64 for the dynamic containers) x "
+        "fixed_vector} x {lvalue, const, rvalue} x lengths 0..5 and 16, 17, 33, 64, 65, 255-257, 1000, 65537 (thorough: 0..64 and up to 70000) x "
         "{enumerate, reverse}: exact (index, value) sequence; for lvalue and const ranges the visited value's address "
         "equals the element's address and writes through the adaptor are read back from the container; temporaries "
         "are iterated under ASan (stack-use-after-scope exposes a dangling range); evaluations = combinations; all "
@@ -26,7 +26,9 @@ def run(tier, replay=None):
         env = dict(os.environ)
         env.update(driver.SAN_ENV)
         try:
-            p = subprocess.run([exe, str(maxlen)], capture_output=True, env=env, timeout=1800)
+            extra = ["16", "17", "33", "64", "65", "255", "256", "257", "1000", "65537"] if tier == "quick" else \
+                ["100", "255", "256", "257", "1000", "4097", "70000"]
+            p = subprocess.run([exe, str(maxlen)] + extra, capture_output=True, env=env, timeout=1800)
         except subprocess.TimeoutExpired:
             run_.inconc("wall-clock watchdog fired")
             continue
